@@ -137,6 +137,20 @@ def uniform(repo: Repo) -> RuleRun:
                         if has_var and has_const:
                             bad.append(n)
         r.check(not bad, q, "no branch on side identity", f"CellBase.quality branches on the identity of the side ({ast.unparse(bad[0].test) if bad else ''}): the measure is no longer invariant under renumbering", bad[0] if bad else lp, key="per-side-loop")
+        # every side contributes: the loop is not left early (which sides were skipped would depend on their numbering)
+        from ..util import loop_early_exits
+
+        exits = [e for e in loop_early_exits(lp) if not isinstance(e, ast.Raise)]
+        exits += [n for n in ast.walk(lp) if isinstance(n, ast.Continue) and not any(isinstance(a, (ast.For, ast.While)) and a is not lp and any(x is n for x in ast.walk(a)) for a in ast.walk(lp))]
+        r.check(
+            not exits,
+            q,
+            "the per-side loop visits every side",
+            f"CellBase.quality leaves the per-side loop early ('{ast.unparse(exits[0])[:40] if exits else ''}'): the sides not yet visited do not contribute, and which ones those are depends "
+            "on the numbering of the cell - the value is no longer invariant under renumbering",
+            exits[0] if exits else lp,
+            key="per-side-loop:complete",
+        )
     return r
 
 
@@ -238,4 +252,27 @@ def trig_domain(repo: Repo) -> RuleRun:
 
 trig_domain.rule_id = "C14.TRIG-DOMAIN"
 
-RULES = [edge_set, side_table, uniform, face_symmetry, no_stale_cache, trig_domain]
+def shape_only(repo: Repo) -> RuleRun:
+    """Positions vs vectors in the quality kernels (bare numpy arrays, so kinds are seeded from `points` and the return
+    annotations): cross / dot / norm take differences of points, and nobody picks single components of a vector - both are
+    necessary for invariance under translation and rotation."""
+    from ..affine import geometry_violations
+
+    r = RuleRun(PROP, "C14.SHAPE-ONLY", floor=6, what="quality kernels combine only differences of points (no position used as a vector, no component picked from a vector)")
+    total = 0
+    for fn in sorted(repo.all_functions(), key=lambda f: f.qualname):
+        if not fn.module.name.endswith("optimize.cell"):
+            continue
+        viol, classified = geometry_violations(repo, fn)
+        total += classified
+        if not viol and classified:
+            r.ok(fn, f"{classified} vector expression(s), all of differences of points", key="kinds")
+        for i, (node, msg) in enumerate(viol):
+            r.bad(fn, f"{fn.qualname}: {msg} - the quality value is no longer a function of the cell's shape alone", node, key=f"kinds#{i}")
+    r.require(total >= 8, f"only {total} vector expressions could be classified in optimize.cell (kinds seeded from `points` no longer propagate)")
+    return r
+
+
+shape_only.rule_id = "C14.SHAPE-ONLY"
+
+RULES = [edge_set, side_table, uniform, face_symmetry, no_stale_cache, trig_domain, shape_only]
